@@ -289,6 +289,18 @@ PNRanges(blk, h, st) ==
         s1 == IF n > 0 THEN sy.num - n + 1 ELSE IF sy.has THEN sy.num + 1 ELSE PCfg.start0
     IN Len(Ranges(s1, NumOf(blk, h), PCfg.maxr))
 
+(* the chain script of a universe: a step e = [a, p, ev, k]
+     "mine"   a new block on top of tree block p (0: the head) with at most one event becomes the head
+     "ext"    a run of k eventless blocks on top of the head (one record, see ChainSync)
+     "switch" the head becomes the existing block p *)
+EnvApply(blk, canon, e) ==
+    LET p == IF e.p = 0 THEN canon ELSE e.p IN
+    CASE e.a = "mine" -> [blk |-> Append(blk, [num |-> blk[p].num + 1, par |-> p, evs |-> IF e.ev = "" THEN {} ELSE {e.ev}, len |-> 1]),
+                          canon |-> Len(blk) + 1]
+      [] e.a = "ext"  -> [blk |-> Append(blk, [num |-> blk[canon].num + e.k, par |-> canon, evs |-> {}, len |-> e.k]), canon |-> Len(blk) + 1]
+      [] OTHER        -> [blk |-> blk, canon |-> e.p]
+RootBlk == [num |-> 0, par |-> -1, evs |-> {}, len |-> 1]
+
 ----------------------------------------------------------------------------
 KsInit(u) == [e2 |-> u.kind2 # "absent" /\ u.eon2 = "known", rows |-> {}, cms |-> {}, reg |-> St(NoRow, {})]
 
